@@ -18,44 +18,82 @@ def PoolsSane (s : State) : Prop :=
   (∀ k p, s.pools.get k = some p → p.liqs ≠ 0 → HasReserves p) ∧
   (∀ k ∈ [poolMelSym, poolMelErg, poolErgSym], ∀ p, s.pools.get k = some p → HasReserves p ∧ 0 < p.liqs)
 
-/-- `create_builtins` makes every builtin pool exist, with the default reserves when it was missing -/
-theorem C16_builtins_created (s : State) (k : PoolKey) (hk : k ∈ builtinKeys s) :
-    ∃ p, (createBuiltins s).pools.get k = some p ∧
-      (s.pools.get k = none → p = builtinDefault) ∧ (∀ q, s.pools.get k = some q → p = q) := by
-  have h12 := poolMelSym_ne_poolMelErg
-  have h13 := poolMelSym_ne_poolErgSym
-  have h23 := poolMelErg_ne_poolErgSym
-  have hcb : (createBuiltins s).pools =
-      if s.tip902 then ((s.pools.setIfNone poolMelSym builtinDefault).setIfNone poolMelErg builtinDefault).setIfNone
-          poolErgSym builtinDefault
-      else (s.pools.setIfNone poolMelSym builtinDefault).setIfNone poolMelErg builtinDefault := by
-    unfold createBuiltins AList.setIfNone
-    cases s.tip902 <;> simp
-  have hgoal : ∀ (v : Option PoolState), ∃ p, some (v.getD builtinDefault) = some p ∧
-      (v = none → p = builtinDefault) ∧ (∀ q, v = some q → p = q) := by
-    intro v; cases v <;> simp
+/-- what `create_builtins` leaves under each builtin key: the pool that was there when it records liquidity,
+    the default pool when it was absent or records no liquidity at all (the `fix:` for finding F23) -/
+theorem createBuiltins_get_builtin (s : State) (k : PoolKey) (hk : k ∈ builtinKeys s) :
+    (createBuiltins s).pools.get k = some (fixedPool (s.pools.get k)) := by
+  apply createBuiltins_get_fixed
   unfold builtinKeys at hk
-  rw [hcb]
   rcases List.mem_append.mp hk with hk | hk
   · simp only [List.mem_cons, List.not_mem_nil, or_false] at hk
     rcases hk with rfl | rfl
-    · have := hgoal (s.pools.get poolMelSym)
-      split
-      · rwa [AList.get_setIfNone_ne _ _ h13, AList.get_setIfNone_ne _ _ h12, AList.get_setIfNone_self]
-      · rwa [AList.get_setIfNone_ne _ _ h12, AList.get_setIfNone_self]
-    · have := hgoal (s.pools.get poolMelErg)
-      split
-      · rwa [AList.get_setIfNone_ne _ _ h23, AList.get_setIfNone_self,
-          AList.get_setIfNone_ne _ _ h12.symm]
-      · rwa [AList.get_setIfNone_self, AList.get_setIfNone_ne _ _ h12.symm]
+    · exact Or.inl rfl
+    · exact Or.inr (Or.inl rfl)
   · split at hk
     · next ht =>
       simp only [List.mem_cons, List.not_mem_nil, or_false] at hk
-      subst hk
-      have := hgoal (s.pools.get poolErgSym)
-      rwa [if_pos ht, AList.get_setIfNone_self, AList.get_setIfNone_ne _ _ h23.symm,
-        AList.get_setIfNone_ne _ _ h13.symm]
+      exact Or.inr (Or.inr ⟨ht, hk⟩)
     · cases hk
+
+/-- `create_builtins` makes every builtin pool exist, with the default reserves when it was missing or held no
+    liquidity at all, and unchanged when it records liquidity -/
+theorem C16_builtins_created (s : State) (k : PoolKey) (hk : k ∈ builtinKeys s) :
+    ∃ p, (createBuiltins s).pools.get k = some p ∧
+      (s.pools.get k = none → p = builtinDefault) ∧
+      (∀ q, s.pools.get k = some q → q.liqs = 0 → p = builtinDefault) ∧
+      (∀ q, s.pools.get k = some q → q.liqs ≠ 0 → p = q) := by
+  refine ⟨_, createBuiltins_get_builtin s k hk, ?_, ?_, ?_⟩
+  · intro h; rw [h]; rfl
+  · intro q h hq; rw [h]; simp [fixedPool, hq]
+  · intro q h hq; rw [h]; simp [fixedPool, hq]
+
+/-- after `create_builtins` every builtin pool records liquidity (whatever the state was) -/
+theorem C16_builtins_have_liquidity (s : State) (k : PoolKey) (hk : k ∈ builtinKeys s) :
+    ∃ p, (createBuiltins s).pools.get k = some p ∧ p.liqs ≠ 0 :=
+  ⟨_, createBuiltins_get_builtin s k hk, fixedPool_liqs_ne _⟩
+
+/-- a builtin pool whose only depositors withdrew everything is created afresh -/
+theorem C16_emptied_builtin_recreated (s : State) (k : PoolKey) (p : PoolState) (hk : k ∈ builtinKeys s)
+    (hp : s.pools.get k = some p) (hz : p.liqs = 0) :
+    (createBuiltins s).pools.get k = some builtinDefault := by
+  rw [createBuiltins_get_builtin s k hk, hp]
+  simp [fixedPool, hz]
+
+/-- what was wrong before the `fix:` commit (finding F23), in general: once TIP-902 is active, pegging on a state
+    whose ERG/SYM pool has an empty SYM side crashes (the implied price is a fraction with denominator zero) -/
+theorem C16_pegging_crashes_on_empty_ergsym (s : State) (p : PoolState) (ht : s.tip902 = true)
+    (hp : s.pools.get poolErgSym = some p) (hr : p.rights = 0) :
+    processPegging s = .crash "melswap.rs: implied_price Ratio::new(_, 0)" := by
+  unfold processPegging
+  simp only [ht, hp, if_true, Outcome.bind, hr]
+
+/-- a small state at the TIP-902 activation height of the main network: the two old builtin pools as created,
+    and an ERG/SYM pool whose only depositor has withdrawn everything (`withdraw` leaves (0, 0, _, 0)) -/
+def emptiedErgSymState : State :=
+  { (default : State) with
+    network := .mainnet
+    height := TIP_902_HEIGHT
+    pools := [(poolMelSym, builtinDefault), (poolMelErg, builtinDefault),
+              (poolErgSym, { lefts := 0, rights := 0, priceAccum := 7, liqs := 0 })] }
+
+/-- what was wrong before the `fix:` commit (finding F23), on a concrete state: the old `create_builtins` only
+    looked at whether the ERG/SYM pool existed, so it left the emptied pool as it was — and pegging on a state
+    whose pools are left as they are crashes at the TIP-902 activation height -/
+theorem C16_old_emptied_ergsym_crashes :
+    emptiedErgSymState.tip902 = true ∧
+    (emptiedErgSymState.pools.get poolErgSym).isNone = false ∧
+    processPegging emptiedErgSymState = .crash "melswap.rs: implied_price Ratio::new(_, 0)" := by
+  have ht : emptiedErgSymState.tip902 = true := by decide
+  have hp : emptiedErgSymState.pools.get poolErgSym =
+      some { lefts := 0, rights := 0, priceAccum := 7, liqs := 0 } := by decide
+  exact ⟨ht, by rw [hp]; rfl, C16_pegging_crashes_on_empty_ergsym _ _ ht hp rfl⟩
+
+/-- the same state after the `fix:`: `create_builtins` puts the default ERG/SYM pool back, so pegging reads
+    reserves of 10^9 on both sides -/
+theorem C16_emptied_ergsym_fixed :
+    (createBuiltins emptiedErgSymState).pools.get poolErgSym = some builtinDefault :=
+  C16_emptied_builtin_recreated _ _ _ (by decide) (by decide : emptiedErgSymState.pools.get poolErgSym =
+    some { lefts := 0, rights := 0, priceAccum := 7, liqs := 0 }) rfl
 
 theorem C16_default_has_reserves : HasReserves builtinDefault ∧ builtinDefault.liqs = 1000000000 := by
   simp [HasReserves, builtinDefault, MICRO_CONVERTER, BUILTIN_LIQ_MULT]
@@ -186,7 +224,13 @@ theorem C16_subsidy_keeps_reserves (s s' : State) (h : applyTip909 s = .ok s') :
 
 end Mel
 
+#print axioms Mel.createBuiltins_get_builtin
 #print axioms Mel.C16_builtins_created
+#print axioms Mel.C16_builtins_have_liquidity
+#print axioms Mel.C16_emptied_builtin_recreated
+#print axioms Mel.C16_pegging_crashes_on_empty_ergsym
+#print axioms Mel.C16_old_emptied_ergsym_crashes
+#print axioms Mel.C16_emptied_ergsym_fixed
 #print axioms Mel.C16_default_has_reserves
 #print axioms Mel.C16_builtins_exist
 #print axioms Mel.C16_partial_withdraw_keeps_reserves
